@@ -22,6 +22,28 @@ TABLE = {
             "(networkx reachability vs independently computed chains).",
             "Lean 4 proof (induction over operation lists) + model/implementation correspondence", "DESIGN.md 7 (C16)",
             "Hypothesis 'every operation acts on at least one mode' is explicit (open finding C16-empty-mode-list)."),
+    "C05": (True,
+            "Theorems (Props/C05.lean): a successfully assembled array has as many rows as written, element (r, c) of "
+            "the flat data is the c-th entry of the r-th written row (index r*ncols + c), a declared shape equals the "
+            "actual shape; rows of different length are rejected, a contradicting shape is rejected; A[k] is the k-th "
+            "element in row-major order and out-of-range indices are refused; a stored scalar has its declared kind and "
+            "complex values are never cast to int/float; re-insertion of any number of template parameters at any "
+            "positions reproduces the written elements (and the pre-repair positions do not). Oracle: every element, "
+            "dtype, shape and index of random declarations against an independent Python evaluation.",
+            "Lean 4 proof (list arithmetic, induction over rows) + correspondence", "DESIGN.md 7 (C05)",
+            "NumPy's cast of element values (np.array(..., dtype)) is a contract boundary."),
+    "C06": (True,
+            "Theorems (Props/C06.lean): for every loop-value list, every body not using the loop variable as an array "
+            "name and every state in which the variable is fresh, replaying the body per value with the variable bound "
+            "equals executing the unrolled statements (variable replaced by a literal of the converted value): same "
+            "error or equal final states once the variable is deleted (substitution lemma over all expression forms, "
+            "lifted through arguments, keyword/list arguments, modes, include expansion, statements, bodies, value "
+            "lists); ranges a:b:c denote a, a+c, ... below b, empty when a >= b, default step 1; the variable is not "
+            "visible afterwards; a wrongly typed listed value makes the loop fail at that value. Oracle: loads(loop "
+            "script) vs loads(unrolled script).",
+            "Lean 4 proof (substitution lemma, induction over values and statements) + correspondence", "DESIGN.md 7 (C06)",
+            "The deferral of body statements during the tree walk (_in_for) is represented by its effect "
+            "(the body is executed by exitForloop only)."),
     "C08": (True,
             "Theorems (Props/C08.lean) for every symbolic argument and EVERY iteration order of the symbol set: the "
             "transform's function applied to the measurement values of the listed symbols in the listed order equals the "
